@@ -150,6 +150,8 @@ def forest_vids(model):
 
 
 def forest_validity(model):
+    if model.get("broken"):
+        return INVALID, "forest:breaking-add-accepted/" + model["broken"][0][2]
     worst = (VALID, "")
     uids = {}
     order = forest_vids(model)
@@ -479,7 +481,13 @@ class CIMachine(FormatMachine):
             if mv["parent"] == into:
                 expect, why = UNSPEC, "re-add-same-container"
             else:
-                expect, why = UNSPEC, "already-in-another-container"
+                # offered to a second container: its UID is aligned with the container it lives in, so (but for degenerate
+                # cases) it cannot be aligned with this one - a misaligned-UID add, to be refused like any other
+                vv, w = variant_validity(model, vid, into)
+                if vv == INVALID and w.endswith("uid:misaligned"):
+                    expect, why = "fail", "placed-elsewhere-uid-misaligned"
+                else:
+                    expect, why = UNSPEC, "already-in-another-container"
         else:
             vv, w = self._subtree_valid(model, vid, into)
             if vv == INVALID:
@@ -530,7 +538,13 @@ class CIMachine(FormatMachine):
             return "refused:" + exc_class(raised)
         # accepted
         if expect == "fail":
-            raise Violation("C11", "C11.breaking_add_refused", "breaking-add-accepted/%s" % why, {"why": why})
+            if self.watching("C11"):
+                raise Violation("C11", "C11.breaking_add_refused", "breaking-add-accepted/%s" % why, {"why": why})
+            # another property's run: the forest now holds what the rules forbid - the model says so and the run's own
+            # oracle judges what happens to it (e.g. C06: it must not be written)
+            model.setdefault("broken", []).append([vid, into, why])
+            CTX.probe("foreign.breaking_add_accepted")
+            return "accepted-breaking"
         if expect == UNSPEC:
             # unspecified territory: stop trusting the model for this slot
             s.tainted = True
